@@ -170,7 +170,7 @@ func observe(m *router.Router, method, path string) outcome {
 		return outcome{Status: st}
 	}
 
-	return outcome{Status: st, Ep: r.VerifEndpoint(), Method: r.VerifMethod()}
+	return outcome{Status: st, Ep: r.VerifC32Endpoint(), Method: r.VerifC32Method()}
 }
 
 type c32case struct {
@@ -580,8 +580,8 @@ func TestC32(t *testing.T) {
 	r.Assume("64 calls per query expose the map-iteration orders of one process; an order never produced by Go's iteration randomisation is not observed")
 
 	c := &c32run{r: r, real: f.Router}
-	for _, rt := range f.Router.VerifRoutes() {
-		c.realRT = append(c.realRT, rtSpec{rt.VerifEndpoint(), rt.VerifMethod()})
+	for _, rt := range f.Router.VerifC32Routes() {
+		c.realRT = append(c.realRT, rtSpec{rt.VerifC32Endpoint(), rt.VerifC32Method()})
 	}
 
 	r.Count("real_table.routes", int64(len(c.realRT)))
